@@ -34,6 +34,32 @@ Definition wf_cart (c : cart) : Prop :=
   match c_label c with Some l => length l = Z.to_nat 8192 /\ Forall byte l | None => True end /\
   Forall (Forall byte) (lua_to_lines (c_lua c)).
 
+(* a cart whose data regions may stop early at a row boundary (what a .p8 file with short sections spells out:
+   newer PICO-8 versions leave out the empty tail of a section); the sfx region is always whole
+   (Sfx.to_lines writes 64 patterns) *)
+Definition wf_short (c : cart) : Prop :=
+  0 <= c_version c /\
+  (exists k, length (c_gfx c) = (k * 64)%nat /\ (k <= 128)%nat) /\
+  (length (c_gff c) <= 256)%nat /\ (length (c_map c) <= Z.to_nat 4096)%nat /\
+  length (c_sfx c) = 4352%nat /\ (exists k, length (c_music c) = (k * 4)%nat /\ (k <= 64)%nat) /\
+  Forall byte (c_gfx c) /\ Forall byte (c_gff c) /\ Forall byte (c_map c) /\ Forall byte (c_sfx c) /\
+  Forall byte (c_music c) /\
+  match c_label c with
+  | Some l => (exists k, length l = (k * 64)%nat /\ (k <= 128)%nat) /\ Forall byte l
+  | None => True
+  end /\
+  Forall (Forall byte) (lua_to_lines (c_lua c)).
+
+Lemma wf_cart_short c : wf_cart c -> wf_short c.
+Proof.
+  intros (Hv & Lg & Lf & Lm & Ls & Lmu & Bg & Bf & Bm & Bs & Bmu & Hlab & Hch).
+  unfold wf_short. repeat split; try assumption; try lia.
+  - exists 128%nat. split; [rewrite Lg; reflexivity | lia].
+  - exists 64%nat. split; [rewrite Lmu; reflexivity | lia].
+  - destruct (c_label c) as [l|]; [|exact I]. destruct Hlab as (Ll & Bl). split; [|exact Bl].
+    exists 128%nat. split; [rewrite Ll; reflexivity | lia].
+Qed.
+
 (* the writer's ended_in_newline test *)
 Definition ended_flag (chunks : list (list Z)) : bool :=
   match last_ends_nl chunks None with Some true => true | _ => false end.
@@ -51,21 +77,25 @@ Definition expected_chunks (c : cart) : list (list Z) :=
   [("__sfx__"%bs ++ [10])] ++ spec_sfx_lines (c_sfx c) ++
   [("__music__"%bs ++ [10])] ++ spec_music_lines (c_music c) ++ [[10]].
 
-Lemma write_chunks_ok c l' : wf_cart c -> lua_from_lines (lua_to_lines (c_lua c)) = Ok l' ->
+Lemma write_chunks_short c l' : wf_short c -> lua_from_lines (lua_to_lines (c_lua c)) = Ok l' ->
   write_p8_chunks c = Ok (expected_chunks c).
 Proof.
-  intros (Hv & Lg & Lf & Lm & Ls & Lmu & Bg & Bf & Bm & Bs & Bmu & Hlab & Hch) Hsan.
+  intros (Hv & Lg & Lf & Lm & Ls & (kmu & Lmu & _) & Bg & Bf & Bm & Bs & Bmu & Hlab & Hch) Hsan.
   unfold P8File.write_p8_chunks, p8_write_events.
   cbn [foldM write_event bind Z.eqb Pos.eqb section_lines fmt_split fst snd].
   rewrite Hsan. cbn [bind].
   destruct (gff_section (c_gff c) Bf) as (Eg & _).
   destruct (map_section (c_map c) Bm) as (Em & _).
   destruct (sfx_section (c_sfx c) Ls Bs) as (Es & _).
-  destruct (music_section 64 (c_music c) Lmu Bmu) as (Emu & _).
+  destruct (music_section kmu (c_music c) Lmu Bmu) as (Emu & _).
   unfold expected_chunks, label_chunks, ended_flag.
   destruct (last_ends_nl (lua_to_lines (c_lua c)) None) as [[|]|] eqn:EE; destruct (c_label c) as [d|] eqn:EL;
     repeat (cbn [bind foldM write_event Z.eqb Pos.eqb section_lines fst snd]; rewrite ?EE, ?EL, ?Es, ?Emu);
     rewrite Eg, Em; rewrite <- ?app_assoc; cbn [app]; reflexivity.
 Qed.
+
+Lemma write_chunks_ok c l' : wf_cart c -> lua_from_lines (lua_to_lines (c_lua c)) = Ok l' ->
+  write_p8_chunks c = Ok (expected_chunks c).
+Proof. intros W. apply write_chunks_short. apply wf_cart_short. exact W. Qed.
 
 End WithLua.
